@@ -154,6 +154,23 @@ class NestedIfc(Component):
       s.p @= s.x[1].inner[0].msg
 
 
+class NestedIfcExprIndex(Component):
+  """nested interface arrays indexed by an EXPRESSION at the outer level and a constant at the inner level; a component array with an
+  interface array indexed the same way"""
+  def construct(s):
+    s.sel = InPort(Bits1)
+    s.x = [OuterI() for _ in range(2)]
+    s.o = OutPort(Bits4)
+    s.p = OutPort(Bits4)
+    s.q = OutPort(Bits2)
+
+    @update
+    def up_nie():
+      s.o @= s.x[s.sel ^ 1].inner[2].msg
+      s.p @= s.x[s.sel].inner[1].msg
+      s.q @= s.x[s.sel ^ 1].tag
+
+
 class NestedIfcConn(Component):
   """the same interfaces moved by connections only"""
   def construct(s):
@@ -206,4 +223,4 @@ class HeteroCompIfcArray(Component):
 
 DESIGNS = {"IfcGrid": IfcGrid, "IfcGridLoop": IfcGridLoop, "IfcRow": IfcRow, "FooTop": FooTop, "CompArray": CompArray, "DownLoop": DownLoop,
            "NestedIfc": NestedIfc, "NestedIfcConn": NestedIfcConn,
-           "HeteroIfcArray": HeteroIfcArray, "HeteroCompIfcArray": HeteroCompIfcArray}
+           "NestedIfcExprIndex": NestedIfcExprIndex, "HeteroIfcArray": HeteroIfcArray, "HeteroCompIfcArray": HeteroCompIfcArray}
